@@ -45,7 +45,7 @@ def build_cases(ctx, stream: str, n: int) -> list[dict]:
     for i in range(n):
         r = rng(f"C04:{stream}:{i}")
         if stream == "mainstream":
-            o = gs.Opts(mainstream=True, always_opid=True, max_ops=5, streaming=False, enum_params=False, formats=("date-time", "date"), array_params=(i % 2 == 0))
+            o = gs.Opts(mainstream=True, always_opid=True, max_ops=5, streaming=False, enum_params=False, formats=("date-time", "date"), array_params=(i % 2 == 0), multi_tags=(i % 3 == 0))
         else:
             o = gs.Opts(mainstream=True, always_opid=True, max_ops=4, cookie_params=True, multi_content=True, array_params=True,
                         enum_params=True, typed_headers=True, formats=("date-time", "date"))
@@ -57,7 +57,8 @@ def build_cases(ctx, stream: str, n: int) -> list[dict]:
                 plan["reply"] = {"status": 200, "headers": {"content-type": "application/json"}, "body_b64": "e30="}
                 plan["features"] = features(op, pl, plan)
                 plan["op"] = {"path": path, "method": m, "operationId": op["operationId"]}
-                calls.append(plan)
+                for loc in opsrig.locate_all(op):      # every tag client's rendering of a multi-tag operation
+                    calls.append({**plan, **loc})
         cases.append({"id": f"{stream}-{i}", "stream": stream, "doc": doc, "calls": calls})
     return cases
 
